@@ -526,6 +526,11 @@ func init() {
 			}
 		}
 		out = append(out, Inst{Pkg: "knx", Fn: "HarnessC17", Args: []int64{2, 20, 0}, Ctx: -1, NoNative: true, Note: "20 group events in a row: the payload of every event handed out stays what it was"})
+		for cl := int64(0); cl < 2; cl++ {
+			for pend := int64(0); pend <= 2; pend++ {
+				out = append(out, Inst{Pkg: "knx", Fn: "HarnessC12CloseBB", Args: []int64{cl, pend}, Ctx: 2, NoNative: true, Note: "events pending when the client is closed; the application ranges over the group channel afterwards"})
+			}
+		}
 		for _, p := range [][2]int64{{15, 16}, {16, 15}, {0, 254}, {254, 1}} {
 			out = append(out, Inst{Pkg: "knx", Fn: "HarnessC12OutSeqWB", Args: []int64{p[0], p[1]}, Unwind: 2000, NoNative: true},
 				Inst{Pkg: "knx", Fn: "HarnessC12OutSeq", Args: []int64{1, p[0], p[1]}, Unwind: 2000, NoNative: true},
@@ -537,8 +542,8 @@ func init() {
 		ID:       "C12",
 		Quick:    func(l *loaded) []Inst { return c12(false) },
 		Thorough: func(l *loaded) []Inst { return c12(true) },
-		Covers:   []string{"C12.out.end", "C12.outwb.end", "C12.in.surfaced", "C12.in.filtered", "C12.inbb.surfaced", "C12.inbb.filtered", "C12.e2e.end", "C12.outseq.end", "C12.outseqwb.end", "C17.end"},
-		Bounds:   "outbound: all three commands, every source/destination/payload byte symbolic, payload lengths {0,1,2,15,16,254} (thorough 0..254), through GroupTunnel.Send (TCP-mode tunnel on the in-memory socket, and a UDP group tunnel built by the real NewGroupTunnel against a scripted gateway) and through GroupRouter.Send of a client built by the real NewGroupRouter (socket constructor redirected; the datagram bytes written are decoded again, so the first payload byte is compared in its low six bits and an empty payload as one zero byte); inbound: one message of every cEMI kind (L_Data req/con/ind with application or control unit, L_Raw x3, L_Busmon, unsupported) with all fields symbolic fed to the real serveGroupInbound goroutine, all interleavings of the three goroutines; the same filter through the sockets of clients built by NewGroupRouter / NewGroupTunnel for all 16 application codes x group/individual destination; end to end: bytes written by a group router client delivered to a group router client's socket, incl. closing of the group channel; 20 inbound events in a row with the application keeping every payload",
+		Covers:   []string{"C12.out.end", "C12.outwb.end", "C12.in.surfaced", "C12.in.filtered", "C12.inbb.surfaced", "C12.inbb.filtered", "C12.e2e.end", "C12.outseq.end", "C12.outseqwb.end", "C12.close.end"},
+		Bounds:   "outbound: all three commands, every source/destination/payload byte symbolic, payload lengths {0,1,2,15,16,254} (thorough 0..254), through GroupTunnel.Send (TCP-mode tunnel on the in-memory socket, and a UDP group tunnel built by the real NewGroupTunnel against a scripted gateway) and through GroupRouter.Send of a client built by the real NewGroupRouter (socket constructor redirected; the datagram bytes written are decoded again, so the first payload byte is compared in its low six bits and an empty payload as one zero byte); inbound: one message of every cEMI kind (L_Data req/con/ind with application or control unit, L_Raw x3, L_Busmon, unsupported) with all fields symbolic fed to the real serveGroupInbound goroutine, all interleavings of the three goroutines; the same filter through the sockets of clients built by NewGroupRouter / NewGroupTunnel for all 16 application codes x group/individual destination; end to end: bytes written by a group router client delivered to a group router client's socket, incl. closing of the group channel; 20 inbound events in a row with the application keeping every payload; Close with 0..2 events pending and the application reading only afterwards (NewGroupRouter / NewGroupTunnel)",
 		Outside:  "payloads above 254 bytes; more than one message per inbound run (ordering is C17)",
 	})
 
@@ -730,6 +735,8 @@ func init() {
 		}
 		out = append(out, Inst{Pkg: "knx", Fn: "HarnessC14Big", Args: []int64{32, 80}, Ctx: -1, RandChoice: true, Unwind: 4000, Note: "full default-sized history (32) of 80-byte telegrams, all reported lost"},
 			Inst{Pkg: "knx", Fn: "HarnessC14Big", Args: []int64{12, 254}, Ctx: -1, RandChoice: true, Unwind: 4000})
+		out = append(out, Inst{Pkg: "knx", Fn: "HarnessC14Group", Args: []int64{3, 5}, Ctx: 2, RandChoice: true, Unwind: 2000, Note: "two group events through NewGroupRouter, both reported lost"},
+			Inst{Pkg: "knx", Fn: "HarnessC14Group", Args: []int64{16, 2}, Ctx: 2, RandChoice: true, Unwind: 2000})
 		for sc := int64(0); sc <= 4; sc++ {
 			out = append(out, Inst{Pkg: "knx", Fn: "HarnessC14Run", Args: []int64{sc}, Ctx: ctx, RandChoice: true, MaxSched: 20000, Note: "real serve goroutine"})
 		}
@@ -740,8 +747,8 @@ func init() {
 		NoNative: true,
 		Quick:    func(l *loaded) []Inst { return c14(false) },
 		Thorough: func(l *loaded) []Inst { return c14(true) },
-		Covers:   []string{"C14.step.sent", "C14.step.sendfail", "C14.lost.resent", "C14.lost.partial", "C14.run.end", "C14.big.end"},
-		Bounds:   "one real Send / resendLost step from every retained history of length r <= R for R in 1..5 (thorough ..7) and R = 32 with r <= 3 (messages are distinct objects), lost count fully symbolic (0..65535), transmission failing at a nondeterministic position; a full history of 32 telegrams of 80 bytes (and 12 of 254 bytes) reported lost and compared byte for byte; bounded runs of the real serve goroutine with senders, lost and busy indications, slow/absent reader and Close, a lost indication before, after and inside a busy period, context bound 3 (thorough 4)",
+		Covers:   []string{"C14.step.sent", "C14.step.sendfail", "C14.lost.resent", "C14.lost.partial", "C14.run.end", "C14.big.end", "C14.group.end"},
+		Bounds:   "one real Send / resendLost step from every retained history of length r <= R for R in 1..5 (thorough ..7) and R = 32 with r <= 3 (messages are distinct objects), lost count fully symbolic (0..65535), transmission failing at a nondeterministic position; a full history of 32 telegrams of 80 bytes (and 12 of 254 bytes) reported lost and compared byte for byte; two group events (payload symbolic) through NewGroupRouter reported lost and compared byte for byte; bounded runs of the real serve goroutine with senders, lost and busy indications, slow/absent reader and Close, a lost indication before, after and inside a busy period, context bound 3 (thorough 4)",
 		Outside:  "retain counts 4..31 and 33..64, 300-send histories (covered by induction over the one-step harness: Send and resendLost keep no state but the list), a lost indication arriving while an earlier resend is still in progress (excluded by the property)",
 		Assume:   []string{"container/list is executed from its real SSA", "in the bounded runs math/rand.Float64 is one of {0, 0.5, 0.9999999}"},
 	})
@@ -844,7 +851,8 @@ func init() {
 		for prog := int64(0); prog <= 5; prog++ {
 			out = append(out, Inst{Pkg: "knx", Fn: "HarnessSelfTestConc", Args: []int64{prog}, Ctx: 2, ForceNative: true, Note: "validation of the engine's channel/select/mutex/once/recover model against the Go runtime"})
 		}
-		out = append(out, Inst{Pkg: "knx", Fn: "HarnessSelfTestClock", NoNative: true, Note: "engine model of time.Now/Since/Sub/Add on the virtual clock"})
+		out = append(out, Inst{Pkg: "knx", Fn: "HarnessSelfTestClock", NoNative: true, Note: "engine model of time.Now/Since/Sub/Add on the virtual clock"},
+			Inst{Pkg: "knx", Fn: "HarnessSelfTestPool", NoNative: true, Note: "engine model of sync.Pool (New on empty, last put handed out first)"})
 		for late := int64(0); late < 2; late++ {
 			for end := int64(0); end < 3; end++ {
 				out = append(out, Inst{Pkg: "knx", Fn: "HarnessC10Relay", Args: []int64{late, end}, Ctx: ctx + 1, Race: true, Note: "late response while the server goroutine ends"})
@@ -857,7 +865,7 @@ func init() {
 		NoNative: true,
 		Quick:    func(l *loaded) []Inst { return c10(false) },
 		Thorough: func(l *loaded) []Inst { return c10(true) },
-		Covers:   []string{"C10.end", "C10.relay.end", "self.end", "self.clock.end"},
+		Covers:   []string{"C10.end", "C10.relay.end", "self.end", "self.clock.end", "self.pool.end"},
 		Bounds:   "Close injected into an idle tunnel, a pending Send, a pending heartbeat exchange, a pending reconnect, parked inbound deliveries and a tunnel whose socket already died; 1 or 2 concurrent closers; with and without a reader; a late connection-state response / tunnelling acknowledgement followed by the end of the server goroutine (disconnect response, socket death, Close) inside the relay's offer window; real serve/process/heartbeat/relay goroutines (<= 9 threads), context bound 3 (thorough 5), scheduler step bound 30000; happens-before race check (vector clocks over go, channel, mutex, WaitGroup, Once and timer edges) on every field of the Tunnel object along all explored schedules",
 		Outside:  "3..4 concurrent closers; memory-model effects below happens-before; the receiver goroutine of the real TunnelSocket (C16)",
 		Assume:   []string{"in-memory socket whose Close is counted", "sync.Once/WaitGroup/Mutex are engine primitives"},
